@@ -81,10 +81,12 @@ def literal_left_comparison(n):
     return (
         isinstance(n, dict)
         and n.get("k") == "fn"
-        and n.get("op") in ("eq", "ne", "lt", "le", "gt", "ge")
-        and len(n.get("a") or ()) == 2
+        and (
+            (n.get("op") in ("eq", "ne", "lt", "le", "gt", "ge") and len(n.get("a") or ()) == 2)
+            or (n.get("op") == "is_in" and len(n.get("a") or ()) >= 2)  # lit.is_in(c, ...) is compiled to (lit == c) | ...
+        )
         and not kf.has_col(n["a"][0])
-        and kf.has_col(n["a"][1])
+        and any(kf.has_col(a) for a in n["a"][1:])
     )
 
 
@@ -135,6 +137,14 @@ def contradiction_in_filter(prog, where, ref_env):
             if e.get("k") == "c" and cur is not None:
                 return {"id": cur.name_to_id().get(e["n"], e["n"])}
             out = {k: canon(v, cur) for k, v in e.items() if k != "sh"}
+            if out.get("k") == "fn" and out.get("op") in ("hany", "or", "hall", "and") and out.get("a"):
+                # neutral elements (`m | False`, `m & True`) are simplified away by the optimizer first
+                neutral = out["op"] in ("hall", "and")
+                rest = [a for a in out["a"] if not (isinstance(a, dict) and a.get("k") == "lit" and a.get("v") is neutral)]
+                if rest and len(rest) < len(out["a"]):
+                    out = dict(out, a=rest)
+                    if len(rest) == 1:
+                        return rest[0]
             if out.get("k") == "fn" and out.get("op") in ("hany", "hall", "and", "or") and out.get("a") and all(_json.dumps(a, sort_keys=True, default=str) == _json.dumps(out["a"][0], sort_keys=True, default=str) for a in out["a"]):
                 return out["a"][0]  # any(m, m) is m (the optimizer sees it like that, too)
             return out
